@@ -247,6 +247,34 @@ def equivariance(R, rng, tier):
             R.count(('copy', name, how), 'copy-restore')
             if not same:
                 R.fail("roi|%s-differs|%s" % (how, name), "%s of a %s region contains different points" % (how, name), None)
+        # independence of copies: editing a copy (move, rotate, vertex edits) never changes the original, and vice versa
+        edits = [('move_to', lambda r: r.move_to(4.5, -3.25))]
+        if hasattr(r0, 'rotate_to'):
+            edits.append(('rotate_to', lambda r: r.rotate_to(getattr(r, 'theta', 0.0) + 0.83)))
+            edits.append(('rotate_by', lambda r: r.rotate_by(-0.41)))
+        if name == 'polygon':
+            edits += [('add_point', lambda r: r.add_point(7.0, 7.0)), ('remove_point', lambda r: r.remove_point(4, 0)), ('replace_last_point', lambda r: r.replace_last_point(-3.0, 6.0))]
+        for ename, edit in edits:
+            for first in ('copy', 'original'):
+                try:
+                    a = mk()
+                    b = a.copy()
+                    edited, kept = (b, a) if first == 'copy' else (a, b)
+                    edit(edited)
+                    ok = np.array_equal(np.asarray(kept.contains(X, Y)), base)
+                    # a second, identical edit of the other one must bring both to the same set
+                    edit(kept)
+                    ok2 = np.array_equal(np.asarray(kept.contains(X, Y)), np.asarray(edited.contains(X, Y)))
+                    det = "editing the %s with %s changed the %s" % (first, ename, 'original' if first == 'copy' else 'copy') if not ok else \
+                        "after the same %s on both, the copy and the original contain different points" % ename
+                    ok = ok and ok2
+                except NotImplementedError:
+                    continue            # this region kind does not offer that edit
+                except Exception as e:
+                    ok, det = False, "%s on a %s raised %s: %s" % (ename, first, type(e).__name__, e)
+                R.count(('alias', name, ename, first), 'copy-independence')
+                if not ok:
+                    R.fail("roi|copy-aliasing|%s|%s" % (name, ename), "%s region: %s" % (name, det), None)
         # move_to (closed-form regions): contains'(p) == contains(p - d); centre == target
         if name != 'polygon':
             for target in ((5.0, -2.0), (-0.5, 0.25)):
